@@ -82,7 +82,7 @@ def errInfoDiff (typeName : String) (einfo : Tok) : Option String :=
       | none => some "bad-hex-in-error-text"
   | _ => some ("error-report-" ++ " ".intercalate einfo)
 
-def judgeLine (line : String) : String :=
+def judgeSeq (line : String) : String :=
   let (lhs, rhs) := splitArrow (tokens line)
   match lhs with
   | "enc" :: gt =>
@@ -178,6 +178,42 @@ def judgeLine (line : String) : String :=
     if mine == theirs then "OK numconv" else s!"DIFF numconv driver={mine} strconv={theirs}"
   | "skip" :: _ => "OK skipped"
   | _ => "BAD line"
+
+/-- `cc <rounds> <seed> <geom> => same|differs|argument-modified <answer> | table`: the answer of concurrent
+callers (the first one that differs from the answer computed alone, else that answer) is judged exactly
+like a sequential `enc` line; class prefix `conc-`. -/
+def judgeLine (line : String) : String :=
+  let (lhs, rhs) := splitArrow (tokens line)
+  match lhs with
+  | "cc" :: _ :: _ :: gt =>
+    match rhs with
+    | status :: ans =>
+      if status == "crash" || status == "timeout" then
+        s!"SPEC conc-enc the-process-died-or-hung-during-concurrent-calls {" ".intercalate (rhs.takeWhile (· ≠ "|"))}"
+      else if status == "panic" then s!"SPEC conc-enc harness-{" ".intercalate (rhs.takeWhile (· ≠ "|"))}"
+      else
+        let v := judgeSeq (" ".intercalate ("enc" :: gt ++ ["=>"] ++ ans))
+        match v.splitOn " " with
+        | k :: cls :: why =>
+          let why := " ".intercalate why
+          if status == "argument-modified" then s!"DIFF conc-{cls} argument-modified-by-a-concurrent-call"
+          else if status == "differs" then
+            (if k == "OK" then s!"DIFF conc-{cls} concurrent-answer-differs-from-the-answer-computed-alone"
+             else s!"{k} conc-{cls} concurrent-callers: {why}")
+          else s!"{k} conc-{cls} {why}"
+        | _ => s!"BAD cc {v}"
+    | [] => "BAD cc"
+  | op :: gt =>
+    match rhs with
+    | "inputmodified" :: ans =>
+      -- the text is judged against the argument as it was given; an otherwise right answer is a
+      -- correspondence difference (the model's Encode does not write to its argument)
+      let v := judgeSeq (" ".intercalate (op :: gt ++ ["=>"] ++ ans))
+      match v.splitOn " " with
+      | "OK" :: cls :: _ => s!"DIFF {cls} encode-modified-its-argument"
+      | _ => v
+    | _ => judgeSeq line
+  | _ => judgeSeq line
 
 end GeomV.C17
 
